@@ -183,6 +183,11 @@ def tree_goals(it, a, b, label, out, depth=0):
         oa, ob = SD.origin(it, a), SD.origin(it, b)
         if oa is not None and ob is not None and depth < 40:
             return tree_goals(it, oa, ob, label, out, depth + 1)
+        sa, sb = z3.simplify(a.e), z3.simplify(b.e)
+        if z3.is_app(sa) and z3.is_app(sb) and sa.decl().name() == "HASH" and sb.decl().name() == "HASH" and sa.num_args() == 3 \
+                and z3.eq(sa.arg(0), sb.arg(0)) and z3.eq(sa.arg(1), sb.arg(1)) and depth < 40:
+            # equal arguments give equal digests (HASH is a function): compare what was hashed, structurally
+            return tree_goals(it, VBytes(sa.arg(2)), VBytes(sb.arg(2)), label, out, depth + 1)
         out.append((label, a.e == b.e))
         return
     if isinstance(a, VBool) and isinstance(b, VBool) or (isinstance(a, VInt) and isinstance(b, VInt) and not isinstance(a, VBool) and not isinstance(b, VBool)) \
